@@ -571,6 +571,9 @@ func (x *Unit) spCall(st *State, e *ast.CallExpr, c *specCtx) Val {
 		return Val{x.fresh("bad", SInt), intT}
 	case "cap":
 		a := arg(0)
+		if _, isCh := under(a.Typ).(*types.Chan); isCh {
+			return Val{x.uf("chancap", SInt, a.T), intT}
+		}
 		return Val{x.u.SliceCap(a.T), intT}
 	case "min", "max":
 		a, b := arg(0), arg(1)
